@@ -11,18 +11,19 @@ NOTE = ('Trusted base: Lean 4.33 kernel; axioms limited to propext/Classical.cho
         'against live objects); harness/*.py (correspondence, simulated devices, scheduler). '
         'CPython library semantics (re, str.format, float, threading) are modelled, not verified.')
 
-CHECKS = {
-    'C11': dict(
-        text='Lean theorems over the model of time_pattern.py and of the TIME_PATTERN instruction '
-             '(match_iff_positions, accept_iff, accepted_nonempty, or_is_or, use_is_pure), stated '
-             'over loop and validity bounds regenerated from the source on every run; tied to the '
-             'code by exhaustive correspondence (all 15851 well-formed patterns, all strings over '
-             '0-9*: to length 5/6, compile-time acceptance through the real lexer/parser, or-lists '
-             'and reuse through the real VM instruction and Clock.wait_until).',
-        technique='Lean 4 proof (structural + decide over generated bounds) + exhaustive '
-                  'model/implementation correspondence',
-        design_ref='DESIGN.md §6 C11'),
-}
+def load_checks():
+    """manifest.d/Cxx.json: {"text", "technique", "design_ref", optional "category", "note",
+    "quick_cmd", "thorough_cmd"} — one file per claimed property"""
+    checks = {}
+    d = os.path.join(ROOT, 'manifest.d')
+    for fn in sorted(os.listdir(d)):
+        if fn.endswith('.json'):
+            with open(os.path.join(d, fn)) as f:
+                checks[fn[:-5]] = json.load(f)
+    return checks
+
+
+CHECKS = load_checks()
 
 NOT_APPLICABLE = {}
 
@@ -37,8 +38,8 @@ def main():
         c = CHECKS[pid]
         checks.append({
             'property_id': pid,
-            'quick_cmd': './check {} --tier quick'.format(pid),
-            'thorough_cmd': './check {} --tier thorough'.format(pid),
+            'quick_cmd': c.get('quick_cmd', './check {} --tier quick'.format(pid)),
+            'thorough_cmd': c.get('thorough_cmd', './check {} --tier thorough'.format(pid)),
             'evidence_file': 'evidence/{}.json'.format(pid),
             'replay_cmd_template': './check {} --replay {{path}}'.format(pid),
             'engine': 'lean-model',
